@@ -275,7 +275,16 @@ func runC02(c c02Case) (fail string, stats map[string]bool) {
 			if c.OversizedAt == k && !hadCloseBefore {
 				ob, oct := s.pc.EncodePost([]Pkt{msgT("part of a request that is too large")}, c.V3Binary)
 				limit := w.Srv.Opts().MaxHttpBufferSize()
-				oe := s.pc.StartPostRaw(ob, oct, func(r *ReqSpec) { r.ContentLength = limit + 1; r.BodyChunk = 0 })
+				var oe *Exchange
+				if limit <= 1<<16 && c.CutAt%2 == 0 {
+					// the length is not declared: the server finds out by reading (a body of limit+1.. bytes, a
+					// well-formed payload of one long message)
+					ob, oct = s.pc.EncodePost([]Pkt{msgT(strings.Repeat("z", int(limit)+1))}, c.V3Binary)
+					oe = s.pc.StartPostRaw(ob, oct, func(r *ReqSpec) { r.ContentLength = -1; r.BodyChunk = 1024 })
+					stats["oversized-request-of-undeclared-length-refused"] = true
+				} else {
+					oe = s.pc.StartPostRaw(ob, oct, func(r *ReqSpec) { r.ContentLength = limit + 1; r.BodyChunk = 0 })
+				}
 				Settle()
 				if osnap := oe.Snap(); osnap.Status != 413 {
 					return fmt.Sprintf("data request declaring %d bytes (limit %d) answered %v, want 413", limit+1, limit, osnap), stats
@@ -572,7 +581,7 @@ func TestC02Inbound(t *testing.T) {
 		}
 	})
 	req := []string{"carrier.polling.rev4", "carrier.polling.rev3", "carrier.jsonp.rev4", "carrier.jsonp.rev3", "carrier.websocket.rev4", "carrier.websocket.rev3", "carrier.webtransport.rev4", "v3-binary-payload", "multi-packet-payload", "non-ascii-text", "binary", "empty-data", "close-not-last", "post-after-close", "candidate-traffic", "traffic-after-close", "fragmented-frames", "non-minimal-length-form", ">=64KiB", "tight-limit"}
-	req = append(req, "connection-died-inside-a-payload", "frame-header-split-in-transit", "data-requests-without-declared-length", "message-sent-compressed", "data-request-after-an-oversized-one-was-refused")
+	req = append(req, "connection-died-inside-a-payload", "frame-header-split-in-transit", "data-requests-without-declared-length", "message-sent-compressed", "data-request-after-an-oversized-one-was-refused", "oversized-request-of-undeclared-length-refused")
 	col.RequireClasses(t, req...)
 }
 
